@@ -274,7 +274,7 @@ def _proto_strategy(tier):
     proto = st.one_of(st.sampled_from(PROTOCOLS), st.text("abcdefghijklmnopqrstuvwxyzABCXYZ", min_size=1, max_size=64))
     suffix = st.sampled_from(["", "", ":", "://", ":/", "//"])
     urls = st.one_of(G.url_structs(scheme_forms=("explicit", "absent", "slashes")).map(G.serialise),
-                     st.text("ab:/ .?#@%hHtTpPsS", max_size=12), st.sampled_from(PANEL_URLS),
+                     st.text("ab:/ .?#@%hHtTpPsS", max_size=12), st.text(max_size=8), st.sampled_from(PANEL_URLS),
                      st.tuples(st.text("abcXYZ", max_size=66), st.sampled_from(["://", "//", ":/", ":", ""]), st.text("ab/:.", max_size=6)).map("".join))
 
     def mk(v):
